@@ -5,6 +5,7 @@ From M Require IntRoundTrip.
 From M Require RtInt.
 From M Require RtText.
 From M Require RtBlock.
+From M Require Tie.
 From M Require DecSpec.
 From M Require FmtModel.
 From M Require IntFmtProofs.
@@ -81,4 +82,12 @@ Theorem C07_result_block_lexes :
 Proof. exact (@RtBlock.result_block_lexes). Qed.
 End T_result_block_lexes.
 Definition C07_result_block_lexes := @T_result_block_lexes.C07_result_block_lexes.
+
+Module T_tie_base_prefix. Import Tie. Local Open Scope bool_scope. Local Open Scope Z_scope.
+Local Open Scope Z_scope.
+Theorem C07_tie_base_prefix :
+  map (fun '(b, _) => ParserModel.base_prefix b) Generated.gen_base_prefix = map snd Generated.gen_base_prefix.
+Proof. exact (@Tie.tie_base_prefix). Qed.
+End T_tie_base_prefix.
+Definition C07_tie_base_prefix := @T_tie_base_prefix.C07_tie_base_prefix.
 
